@@ -80,3 +80,7 @@ def refute(pc, unknown_items):
             it.result = 'refuted'
             it.by = (it.by or '') + ' unknown -> native refutation'
             it.extra['native_case'] = case
+
+
+def fallback(pc):
+    return [{'script': 'mw_case.py', 'case': {'mw': mw, 'requests': REQS}} for mw in sorted(set(NATIVE.values()))]
